@@ -73,24 +73,26 @@ Dest == 1..NDest
 (* Types of actions and messages.  "A","m" untyped; "T","M" declared with    *)
 (* ActionType / MessageType (harness field serializers on x / y).            *)
 ActTypes == {"A", "T", "E"}       \* "E": the default, EMPTY action type (start_action() without action_type)
-MsgTypes == {"m", "M", "h", "N", "N0"}   \* "N": MessageType declared with fields(n=int); "N0": the same type logged WITHOUT its field       \* "h": a message whose field value is hostile (not JSON-able, str()/repr() raise, ...)
+MsgTypes == {"m", "M", "Mh", "h", "N", "N0"}   \* "N": MessageType declared with fields(n=int); "N0": the same type logged WITHOUT its field       \* "h": a message whose field value is hostile (not JSON-able, str()/repr() raise, ...)
 IsTyped(ty) == ty \in {"T", "M", "eliot:traceback"}
 StartFields(ty)   == IF ty = "T" THEN {"x"} ELSE {"sa"}
-MsgFields(ty)     == CASE ty = "M" -> {"x"} [] ty = "h" -> {"hv"} [] ty = "N" -> {"n"} [] ty = "N0" -> {} [] OTHER -> {"mf"}
+MsgFields(ty)     == CASE ty \in {"M", "Mh"} -> {"x"} [] ty = "h" -> {"hv"} [] ty = "N" -> {"n"} [] ty = "N0" -> {} [] OTHER -> {"mf"}
 \* declared fields whose serializer is harness-controlled (may raise), per message kind
 Declared(m) == IF m.ty = "T" /\ m.k = "start" THEN {"x"}
                ELSE IF m.ty = "T" /\ m.k = "end" /\ m.st = "succeeded" THEN {"y"}
-               ELSE IF m.ty = "M" THEN {"x"} ELSE {}
+               ELSE IF m.ty \in {"M", "Mh"} THEN {"x"} ELSE {}      \* "Mh": the typed message with a hostile (uncopyable, unencodable) value
 \* declared fields with the library's own (identity) serializers: cannot raise, but must be present
 DeclaredPlain(m) == IF m.ty \in {"N", "N0"} THEN {"n"} ELSE {}
 \* outcomes of a block / finish: "ok", or an exception kind
 \*   "exc"  an exception whose class chain has no extractor      "extraise"  its extractor raises
 \*   "x0" "x1" "x2"  an instance of E0 / E1 (subclass of E0) / E2 (subclass of E1): the fields come from the
 \*   extractor registered for the NEAREST class in its MRO, at the moment it is looked up
-Outcomes == {"ok", "exc", "x0", "x1", "x2", "extraise"}
-ExtOutcomes == {"x0", "x1", "x2", "extraise"}
-Chain(o) == CASE o = "x2" -> <<"E2", "E1", "E0">> [] o = "x1" -> <<"E1", "E0">> [] o = "x0" -> <<"E0">> [] OTHER -> <<>>
-FieldOf(k) == CASE k = "E0" -> "e0" [] k = "E1" -> "e1" [] k = "E2" -> "e2"
+\*   "x3"  an instance of M(E0, D2) (multiple inheritance; D2 < D1 < Exception): its MRO is M, E0, D2, D1, ...: E0 is nearer than
+\*         D2 although D2 sits deeper in the class hierarchy
+Outcomes == {"ok", "exc", "x0", "x1", "x2", "x3", "extraise"}
+ExtOutcomes == {"x0", "x1", "x2", "x3", "extraise"}
+Chain(o) == CASE o = "x2" -> <<"E2", "E1", "E0">> [] o = "x1" -> <<"E1", "E0">> [] o = "x0" -> <<"E0">> [] o = "x3" -> <<"E0", "D2">> [] OTHER -> <<>>
+FieldOf(k) == CASE k = "E0" -> "e0" [] k = "E1" -> "e1" [] k = "E2" -> "e2" [] k = "D2" -> "d2"
 ExtraFieldsIn(r, o) == LET s == SelectSeq(Chain(o), LAMBDA k : k \in r) IN IF s = <<>> THEN {} ELSE {FieldOf(s[1])}
 
 NoCall == [c |-> 0, v |-> "none"]
@@ -591,16 +593,16 @@ Next ==
        \/ \E a \in DOMAIN acts : \/ Enter(c, "with", a)
                                  \/ F("ctx") /\ Enter(c, "ctx", a)
                                  \/ F("run") /\ Enter(c, "run", a)
-                                 \/ F("finish") /\ \E o \in Outcomes : (o \in ExtOutcomes => F("ext")) /\ Finish(c, a, o)
+                                 \/ F("finish") /\ \E o \in Outcomes : (o \in ExtOutcomes => F("ext")) /\ (o = "x3" => F("mi")) /\ Finish(c, a, o)
                                  \/ F("alog") /\ ActionLog(c, a, "m")
                                  \/ F("succ") /\ \E f \in {"y", "z"} : AddSuccess(c, a, f)
-       \/ \E o \in Outcomes : (o \in ExtOutcomes => F("ext")) /\ Exit(c, o)
-       \/ \E ty \in MsgTypes : (ty \in {"M", "N", "N0"} => F("typed")) /\ (ty = "h" => F("hostile")) /\ Log(c, ty)
+       \/ \E o \in Outcomes : (o \in ExtOutcomes => F("ext")) /\ (o = "x3" => F("mi")) /\ Exit(c, o)
+       \/ \E ty \in MsgTypes : (ty \in {"M", "N", "N0"} => F("typed")) /\ (ty \in {"h", "Mh"} => F("hostile")) /\ Log(c, ty)
        \/ F("raw") /\ RawWrite(c)
        \/ F("stdlib") /\ \E b \in BOOLEAN : StdlibLog(c, b)
        \/ F("logcall") /\ \E o \in {"ok", "exc"} : LogCall(c, o)
        \/ F("tb") /\ \E o \in {"exc", "x1"} : (o = "x1" => F("ext")) /\ WriteTraceback(c, o)
-       \/ F("ext") /\ \E k \in {"E0", "E1", "E2"} : Register(c, k)
+       \/ F("ext") /\ \E k \in {"E0", "E1", "E2", "D2"} : (k = "D2" => F("mi")) /\ Register(c, k)
        \/ F("remote") /\ (SerializeId(c) \/ \E i \in DOMAIN ids : ContinueTask(c, i))
        \/ F("preserve") /\ (Preserve(c) \/ \E i \in DOMAIN ids : CallPreserved(c, i))
        \/ F("spawn") /\ \E c2 \in Ctx, k \in {"thread", "task"} : Spawn(c, c2, k)
@@ -660,7 +662,7 @@ C03_OneStartOneEnd == (Idle /\ NoSerFail) => \A d \in Dest : Healthy(d) => \A a 
 C03_StatusTruthful == (Idle /\ NoSerFail) => \A d \in Dest : Healthy(d) => \A a \in DOMAIN acts :
                         \A e \in Own(Stream(d), a, "end") : Stream(d)[e].st = nodes[acts[a].node].st
 C03_FieldPlacement == \A d \in Dest : \A i \in DOMAIN offered[d] : LET m == Stream(d)[i] IN
-                        /\ (m.k = "start" /\ m.rep = "") => m.f \cap {"z", "result", "exception", "reason", "e0", "e1", "e2"} = {}
+                        /\ (m.k = "start" /\ m.rep = "") => m.f \cap {"z", "result", "exception", "reason", "e0", "e1", "e2", "d2"} = {}
                         /\ (m.k = "end" /\ m.st = "failed") => m.f \cap {"z", "sa", "result"} = {} /\ {"exception", "reason"} \subseteq m.f
                         /\ (m.k = "end" /\ m.st = "succeeded") => m.f \cap {"sa", "exception", "reason", "e0", "e1", "e2"} = {}
 
